@@ -215,9 +215,189 @@ Proof. vm_compute. repeat split. Qed.
     hold for what the code says now. A change of one of these functions that is not an equivalent rewrite breaks the
     proof obligation here. *)
 From Hoot Require Import Gen.
-From Hoot.proofs Require Import Gen_equiv.
+From Hoot.proofs Require Import Gen_equiv_body.
 Theorem c03_code_max_chunk_fit : forall a m, gen_max_chunk_fit a m = max_chunk_fit a m.
 Proof. exact gen_max_chunk_fit_eq. Qed.
+
+
+(* ================================================================== additions (review 1) *)
+From Hoot Require Import Httparse Parser Url Flow.
+From Hoot.proofs Require Import C17_proofs C02_proofs C02_entry C03_more.
+
+(* ------------------------------------------------------------------ valid against the grammar *)
+
+(** The emitted bytes -- completed by the terminator when it is not out yet -- are the encoding [enc k]
+    of a coding [k] that is VALID in the sense of the independent grammar of proofs/C07_spec.v
+    (size line = 1*HEXDIG of the right value, CR-free, data non-empty, last-chunk of value zero), whose
+    payload is exactly the consumed input, without trailers, and with size lines within the decoder's
+    limit (so finding F17 does not concern what this writer emits).  Every history. *)
+Theorem c03_valid : forall c ops,
+  chunked_body c false ->
+  let t := trun (start c) ops in
+  let ended := w_ended (c_writer (t_call t)) in
+  exists k, C07_spec.valid k /\ C07_spec.line_limit_F17 k /\
+            C07_spec.payload k = C03_proofs.t_in t /\ C07_spec.cd_trailers k = [] /\
+            C07_spec.enc k = C03_proofs.t_out t ++ (if ended then [] else TERM).
+Proof. exact valid_run. Qed.
+
+(** The size-line printer against the grammar's own reading of a size line (hex digits, value), not
+    only against the model's parser ([c03_hex_roundtrip]). *)
+Theorem c03_size_line_grammar : forall n,
+  forallb C07_spec.is_hex (hex_of n) = true /\ C07_spec.hex_value (hex_of n) = n.
+Proof. exact hex_of_grammar. Qed.
+
+(* ------------------------------------------------------------------ "when the request body is sent chunked" *)
+
+(** Entry condition, from the REQUEST: a flow as Prepare leaves it ([prepared], see C02
+    [c02_prepared_reachable]) that analysis accepts and whose effective headers carry a chunked
+    Transfer-Encoding -- the caller's, or the one analysis adds by default for a body method or after
+    [send_body_despite_method] (C02 [c02_faithful], [c02_framing]).  Once its head is out the flow
+    holds a with-body call satisfying the premise [chunked_body _ false] of the theorems above, and
+    advancing leads to SendBody with this very flow. *)
+Theorem c03_entry : forall f caps,
+  prepared f -> call_invalid (i_call f) = false -> sendable (i_call f) ->
+  let a' := c_req (analysed_call (i_call f)) in
+  let g := fw_flow (fwrun f caps) in
+  send_request_can_proceed g = Ok true ->
+  has_chunked_te a' = true ->
+  c_req (i_call g) = a' /\ i_holder g = HWithBody /\ i_should_send_body g = true /\
+  chunked_body (i_call g) false /\
+  send_request_proceed g = Ok (Some (if i_await_100 f then TAwait100 else TSendBody, g)) /\
+  await_100_proceed g = Ok (TSendBody, g).
+Proof. exact c03_entry_lemma. Qed.
+
+(* ------------------------------------------------------------------ the observation points: Flow<SendBody> *)
+
+Theorem c03_flow_write : forall g ended input cap,
+  i_holder g = HWithBody -> chunked_body (i_call g) ended ->
+  send_body_write g input cap =
+    match input with
+    | [] =>
+        if negb ended && (5 <=? cap)
+        then Ok (set_call g (set_writer (i_call g) ended_writer), 0, TERM)
+        else Ok (g, 0, [])
+    | _ :: _ =>
+        if ended then Err BodyContentAfterFinish
+        else let r := chunk_loop (S (List.length input)) input cap 0 [] in Ok (g, fst r, snd r)
+    end.
+Proof. exact flow_write_chunked. Qed.
+
+Theorem c03_flow_can_proceed : forall g ended,
+  i_holder g = HWithBody -> chunked_body (i_call g) ended -> send_body_can_proceed g = Ok ended.
+Proof. exact flow_can_proceed_chunked. Qed.
+
+Theorem c03_flow_direct_refused : forall g ended amount,
+  i_holder g = HWithBody -> chunked_body (i_call g) ended ->
+  send_body_direct g amount = Err BodyIsChunked.
+Proof. exact flow_direct_chunked. Qed.
+
+(** Histories of [Flow::<SendBody>::write] calls are the call histories of [c03_shape] carried inside
+    the flow. *)
+Theorem c03_flow_history : forall g ops,
+  i_holder g = HWithBody ->
+  let ft := frun (fstart g) ops in
+  let t := trun (start (i_call g)) ops in
+  ft_flow ft = set_call g (t_call t) /\ ft_out ft = C03_proofs.t_out t /\
+  ft_in ft = C03_proofs.t_in t /\ ft_fin ft = t_fin t.
+Proof. intros g ops Hh. cbv zeta. rewrite (frun_start g ops Hh). repeat split. Qed.
+
+(** The invariant at the flow level, every history; [ended] is what [can_proceed] answers. *)
+Theorem c03_flow_shape : forall g ops,
+  i_holder g = HWithBody -> chunked_body (i_call g) false ->
+  let ft := frun (fstart g) ops in
+  exists ended cs,
+    i_holder (ft_flow ft) = HWithBody /\
+    chunked_body (i_call (ft_flow ft)) ended /\
+    send_body_can_proceed (ft_flow ft) = Ok ended /\
+    chunks_ok cs /\ concat cs = ft_in ft /\
+    ft_out ft = enc_chunks cs ++ (if ended then TERM else []) /\
+    ft_fin ft = (if ended then 1 else 0).
+Proof. exact flow_shape. Qed.
+
+Theorem c03_flow_valid : forall g ops,
+  i_holder g = HWithBody -> chunked_body (i_call g) false ->
+  let ft := frun (fstart g) ops in
+  exists ended k,
+    send_body_can_proceed (ft_flow ft) = Ok ended /\
+    C07_spec.valid k /\ C07_spec.line_limit_F17 k /\
+    C07_spec.payload k = ft_in ft /\ C07_spec.cd_trailers k = [] /\
+    C07_spec.enc k = ft_out ft ++ (if ended then [] else TERM).
+Proof. exact flow_valid. Qed.
+
+(** From the request to the end of the body, in one statement. *)
+Theorem c03_from_request : forall f caps ops,
+  prepared f -> call_invalid (i_call f) = false -> sendable (i_call f) ->
+  let a' := c_req (analysed_call (i_call f)) in
+  let g := fw_flow (fwrun f caps) in
+  send_request_can_proceed g = Ok true ->
+  has_chunked_te a' = true ->
+  let ft := frun (fstart g) ops in
+  exists ended cs k,
+    send_body_can_proceed (ft_flow ft) = Ok ended /\
+    chunks_ok cs /\ concat cs = ft_in ft /\
+    ft_out ft = enc_chunks cs ++ (if ended then TERM else []) /\
+    ft_fin ft = (if ended then 1 else 0) /\
+    C07_spec.valid k /\ C07_spec.payload k = ft_in ft /\
+    C07_spec.enc k = ft_out ft ++ (if ended then [] else TERM).
+Proof. exact from_request. Qed.
+
+(** Non-vacuity with states REACHED BY RUNNING THE MODEL.  (1) PUT without framing headers:
+    [Flow::new], head over buffers of 5 (too small) and 200 bytes, "transfer-encoding: chunked" was
+    added, proceed leads to SendBody with the same flow; there: 3 bytes into 7 (2 consumed), 2 bytes,
+    a finishing write into 4 bytes (nothing), one into 5 (the terminator), a second one (nothing), a
+    late non-empty write (refused).  (2) GET with [send_body_despite_method] and a caller-supplied
+    "Transfer-Encoding: Chunked"-valued field (value compared ignoring case): same entry. *)
+Definition put_req : request :=
+  {| rq_method := PUT; rq_version := V11;
+     rq_uri := {| u_scheme := s2b "http"; u_auth := s2b "a.test"; u_pq := s2b "/up" |};
+     rq_headers := [(s2b "accept", s2b "*/*")] |}.
+Definition put_flow : inner :=
+  match flow_new put_req with
+  | Ok f => f
+  | _ => {| i_call := demo_call; i_holder := HRecvBody; i_reasons := []; i_should_send_body := false;
+            i_await_100 := false; i_status := None; i_location := None |}
+  end.
+Definition get_te_req : request :=
+  {| rq_method := GET; rq_version := V11;
+     rq_uri := {| u_scheme := s2b "http"; u_auth := s2b "a.test"; u_pq := s2b "/" |};
+     rq_headers := [(s2b "transfer-encoding", s2b "Chunked")] |}.
+Definition get_te_flow : inner :=
+  match flow_new get_te_req with
+  | Ok f => match send_body_despite_method f with Ok f' => f' | _ => f end
+  | _ => put_flow
+  end.
+
+Example c03_flow_nonvacuous :
+  flow_new put_req = Ok put_flow /\
+  prepared put_flow /\ call_invalid (i_call put_flow) = false /\ sendable (i_call put_flow) /\
+  (let a' := c_req (analysed_call (i_call put_flow)) in
+   let g := fw_flow (fwrun put_flow [5; 200]) in
+   send_request_can_proceed g = Ok true /\ has_chunked_te a' = true /\
+   tes a' = [s2b "chunked"] /\ cls a' = [] /\
+   send_request_proceed g = Ok (Some (TSendBody, g)) /\
+   chunked_body (i_call g) false /\ i_holder g = HWithBody /\
+   let ft := frun (fstart g) [W [1; 2; 3] 7; W [3; 4] 100; W [] 4; W [] 5; W [] 100; W [9] 100] in
+   ft_out ft = [50; 13; 10; 1; 2; 13; 10] ++ [50; 13; 10; 3; 4; 13; 10] ++ TERM /\
+   ft_in ft = [1; 2; 3; 4] /\ ft_fin ft = 1 /\
+   send_body_can_proceed (ft_flow ft) = Ok true /\
+   send_body_write (ft_flow ft) [9] 100 = Err BodyContentAfterFinish /\
+   send_body_direct g 1 = Err BodyIsChunked /\
+   send_body_can_proceed (ft_flow (frun (fstart g) [W [1; 2; 3] 7; W [] 4])) = Ok false) /\
+  (exists f0, flow_new get_te_req = Ok f0 /\ send_body_despite_method f0 = Ok get_te_flow) /\
+  prepared get_te_flow /\ call_invalid (i_call get_te_flow) = false /\ sendable (i_call get_te_flow) /\
+  (let a' := c_req (analysed_call (i_call get_te_flow)) in
+   let g := fw_flow (fwrun get_te_flow [200]) in
+   send_request_can_proceed g = Ok true /\ has_chunked_te a' = true /\ tes a' = [s2b "Chunked"] /\
+   chunked_body (i_call g) false /\ send_request_proceed g = Ok (Some (TSendBody, g))).
+Proof.
+  split; [reflexivity|]. split; [vm_compute; auto 10|]. split; [reflexivity|].
+  split; [vm_compute; repeat split; auto; discriminate|].
+  split; [vm_compute; repeat split|].
+  split; [eexists; split; vm_compute; reflexivity|].
+  split; [vm_compute; auto 10|]. split; [reflexivity|].
+  split; [vm_compute; repeat split; auto; discriminate|].
+  vm_compute. repeat split.
+Qed.
 
 Print Assumptions c03_call.
 Print Assumptions c03_call_shape.
@@ -237,3 +417,14 @@ Print Assumptions c03_roundtrip_reaches_end.
 Print Assumptions c03_roundtrip_unfinished.
 Print Assumptions c03_nonvacuous.
 Print Assumptions c03_code_max_chunk_fit.
+Print Assumptions c03_valid.
+Print Assumptions c03_size_line_grammar.
+Print Assumptions c03_entry.
+Print Assumptions c03_flow_write.
+Print Assumptions c03_flow_can_proceed.
+Print Assumptions c03_flow_direct_refused.
+Print Assumptions c03_flow_history.
+Print Assumptions c03_flow_shape.
+Print Assumptions c03_flow_valid.
+Print Assumptions c03_from_request.
+Print Assumptions c03_flow_nonvacuous.
